@@ -460,6 +460,7 @@ package models
 
 //@ func (*models.Session).Close
 //@   property C07
+//@   event
 //@   assume_nonblocking closeFrameChan has capacity 1 and is sent to at most once (inside closeOnce.Do)
 //@   modifies s.closeOnce
 //@   ensures once_done(s.closeOnce)
